@@ -47,3 +47,9 @@ claim("C11",
   "Decides for all IMSIs at once which input digit lands in which nibble of PLMN octets 1..3 for both MNC lengths, where the MSIN starts, how MSIN digit pairs and a final odd digit are packed, the fixed header octets and that Len is the final buffer length; that the library's own PLMN conversion places the digits identically; and that the PLMN announced at NG Setup is octets 1..3 of the same encoder's output and is what TestPlmn remembers. Digit placement is the entire content of these encodings, so placement + digit-value mapping is the property for well-formed IMSIs.",
   "Level 'other'. Restructured encoders (e.g. table/loop driven packing) are reported as undecided, not as violations. Not decided: non-decimal input characters.",
   "DESIGN.md §5 C11")
+
+claim("C17",
+  "bit-provenance abstract interpretation (AMF-ID split, PLMN digits), canonical access-path comparison of the S-NSSAI forms, index-range rule (constant index < octets of the case, variable index dominated by index < len), per-state analysis of the PCO decoder's switch-on-state loop, size bookkeeping of the PCO Add* helpers",
+  "Decides for all inputs the placement/partition facts of the five converters and that the two directions of each converter agree on sizes and field order, including index safety of the dual-stack address and the 'container appended exactly once, even when the list ends after an empty container' discipline of the PCO decoder.",
+  "Level 'other'. Not decided: inverse laws as value equalities; net/hex library behaviour (trusted).",
+  "DESIGN.md §5 C17")
